@@ -275,6 +275,7 @@ class Peer:
 class FakeTransport:
     def __init__(self):
         self.out = []
+        self.closed = False
 
     def write(self, data):
         self.out.append(bytes(data))
@@ -283,7 +284,10 @@ class FakeTransport:
         self.out.append(bytes(data))
 
     def close(self):
-        pass
+        self.closed = True
+
+    def is_closing(self):
+        return self.closed
 
 
 class CompListener:
@@ -616,7 +620,7 @@ def run_recv_variant(sc, parts, plains, var):
     chan, enc, c0 = sc["chan"], sc.get("enc", True), sc.get("c0", 0)
     stream = bytearray(b"".join(parts))
     tam = var.get("tamper")
-    bad = None
+    bad, in_prefix = None, False
     if tam:
         pos, val = tam
         assert stream[pos] != val
@@ -625,6 +629,7 @@ def run_recv_variant(sc, parts, plains, var):
         for i, p in enumerate(parts):
             if pos < acc + len(p):
                 bad = i
+                in_prefix = chan in ("hap", "hapchan") and pos - acc < 2
                 break
             acc += len(p)
     stream = bytes(stream)
@@ -635,20 +640,25 @@ def run_recv_variant(sc, parts, plains, var):
         pos += n
     if pos < len(stream):
         chunks.append(stream[pos:])
-    outs, exc = [], None
+    outs, exc, closed = [], None, False
     for ch in chunks:
+        # a connection that failed (data_received raised: asyncio closes the transport) or that
+        # closed its transport itself receives nothing further
         try:
             o = real.feed(ch)
         except Exception as ex:  # noqa
             exc = exn_name(ex)
             break
         outs.append(o)
+        if real.tr.closed:
+            closed = True
+            break
     if chan in ("comp", "mrp"):
         got = real.listener.got
     else:
         got = outs
     obs = {"got": got, "exc": exc, "counter": real.in_counter(), "residual": real.residual(),
-           "log": real.log, "bad": bad}
+           "log": real.log, "bad": bad, "closed": closed, "in_prefix": in_prefix}
     obs["replayed"] = len(parts) > len(plains)
     return obs, judge_recv(sc, plains, var, obs)
 
@@ -678,7 +688,15 @@ def judge_recv(sc, plains, var, obs):
             if limit is None:
                 pass
             elif not want.startswith(data) or len(data) > limit:
-                viol.append(("C07:%s:tamper-accepted" % key, "corrupted byte %d: delivered %d bytes, only the %d bytes before the corrupted frame may be delivered" % (tam[0], len(data), limit)))
+                viol.append(("C07:%s:tamper-accepted" % key, "corrupted byte %d (frame %d), reads %s: the application got %d bytes%s; only the %d bytes before the "
+                             "corrupted frame may be delivered and nothing after it" % (
+                                 tam[0], obs["bad"], var["lens"][:8] or "whole", len(data),
+                                 "" if want.startswith(data) else " that are NOT a prefix of the sent stream (a hole)", limit)))
+            elif exc is None and not obs["closed"] and not obs["in_prefix"]:
+                # every byte of the corrupted frame arrived: the channel has to report the failure
+                # (only a corrupted length prefix may legitimately leave it waiting for more bytes)
+                viol.append(("C07:%s:tamper-not-reported" % key, "corrupted byte %d (frame %d), reads %s: the modified frame was neither delivered nor "
+                             "reported - no exception, transport not closed" % (tam[0], obs["bad"], var["lens"][:8] or "whole")))
         return viol
     # Companion / MRP: deliveries are frames; a dropped frame does not stop the connection
     if exc is not None:
@@ -969,6 +987,8 @@ def gen_recv(ctx):
     # frames at the limit: 1023/1024/1025 and multiples (1025 = two frames)
     sc("hap", [rnd_pat(rng, 1023), rnd_pat(rng, 1024), rnd_pat(rng, 1025)], c0=rng.choice([0, 65535]), cuts="near" if not ctx.thorough else "full", tamper="some")
     sc("hapchan", [rnd_pat(rng, 2048), rnd_pat(rng, 1)], c0=(1 << 32) - 1, cuts="near")
+    # a message longer than a frame between shorter ones, one frame corrupted, later frames valid
+    sc("hapchan", [rnd_pat(rng, 300), rnd_pat(rng, 1500), rnd_pat(rng, 200), rnd_pat(rng, 10)], c0=rng.choice([0, 254]), cuts="near", tamper="some")
     sc("hap", [rnd_pat(rng, 3073)], c0=3, cuts="near")
     if ctx.thorough:
         sc("hap", [rnd_pat(rng, 4097), rnd_pat(rng, 1024)], c0=0, cuts="near")
@@ -1047,8 +1067,23 @@ def expand_variants(ctx, sc, parts):
                 vals = [stream[pos] ^ (1 << rng.randrange(8))]
                 if ctx.thorough:
                     vals.append(stream[pos] ^ 0xFF)
+            # the same segmentation classes as for untampered streams: whole, one read per frame
+            # (later valid frames arrive on a frame boundary AFTER the corrupted one was handled),
+            # byte-at-a-time, a random cut, a cut right after the corrupted frame
+            per_frame = [len(p) for p in parts[:-1]]
+            after_bad = 0
+            for p in parts:
+                after_bad += len(p)
+                if pos < after_bad:
+                    break
             for v in vals:
                 vs.append({"lens": [], "tamper": [pos, v]})
+                if len(parts) > 1:
+                    vs.append({"lens": per_frame, "tamper": [pos, v]})
+                    if after_bad < total and rng.random() < 0.5:
+                        vs.append({"lens": [after_bad], "tamper": [pos, v]})
+                if total <= 120 and (pos in hdr or rng.random() < 0.3):
+                    vs.append({"lens": [1] * total, "tamper": [pos, v]})
                 if total > 2 and rng.random() < 0.5:
                     vs.append({"lens": [rng.randrange(1, total)], "tamper": [pos, v]})
     return vs
